@@ -26,6 +26,7 @@ import (
 var rec = vk.NewRecorder("C10")
 
 func TestMain(m *testing.M) {
+	vk.Disturb = gen.Disturb
 	code := m.Run()
 	rec.Flush("all")
 	os.Exit(code)
